@@ -275,17 +275,21 @@ func (d Diff) RenderMerge() (string, error) {
 		// A noop JSON Merge Patch should be an empty object
 		return "{}", nil
 	}
-	for _, e := range d {
+	// Void becomes null in a copy: the Add slices belong to the caller's diff.
+	nulled := make(Diff, len(d))
+	for j, e := range d {
 		if !e.Metadata.Merge {
 			return "", fmt.Errorf("cannot render non-merge element as merge")
 		}
+		e.Add = slices.Clone(e.Add)
 		for i := range e.Add {
 			if isVoid(e.Add[i]) {
 				e.Add[i] = jsonNull{}
 			}
 		}
+		nulled[j] = e
 	}
-	mergePatch, err := voidNode{}.Patch(d)
+	mergePatch, err := voidNode{}.Patch(nulled)
 	if err != nil {
 		return "", err
 	}
